@@ -559,4 +559,292 @@ Proof.
   all: apply Nat.ltb_lt in EG; lia.
 Qed.
 
+
+(* ---- ares_slist_node_claim / ares_slist_node_destroy ---- *)
+Lemma sl_claim_ok s sp n A d B :
+  sl_R s sp -> sp_l sp = A ++ (n, d) :: B ->
+  exists s', sl_node_claim s n = Ok (s', d) /\
+             sl_R s' (mkSlSpec (sp_next sp) (A ++ B) (sp_levels sp)).
+Proof.
+  intros R E. pose proof R as (RP & DAT & SO & CNT & LI & NX & LVS & H0).
+  rewrite E, map_app in RP. cbn [map fst] in RP.
+  pose proof RP as (W & ND & LV & _).
+  pose proof (sl_nodup_split_notin _ _ _ ND) as [NA NB].
+  assert (LVn : 0 < sl_LEV s n) by (apply LV, in_or_app; right; left; auto).
+  assert (Dn : sl_DATA s n = Some d) by (apply DAT; rewrite E; apply in_or_app; right; left; auto).
+  destruct (sl_node_pop_ok s n (map fst A) (map fst B) RP) as (s1 & E1 & RP1 & SM1).
+  pose proof SM1 as (SMD & SML & SMl & SMc & SMh).
+  assert (NI : ~ In n (map fst A ++ map fst B)) by (intros H; apply in_app_or in H; tauto).
+  destruct (sl_free_ok s1 n _ RP1 NI) as (RP2 & LV2 & OTH2 & HL2 & C2 & LS2).
+  { rewrite SML. exact LVn. }
+  unfold sl_node_claim, sl_load. unfold sl_DATA in Dn.
+  destruct (sl_node_at s n) as [nd|] eqn:En; [|discriminate]. simpl in Dn. injection Dn as Dn.
+  cbn [bind]. rewrite E1. cbn [bind].
+  assert (Hc : sl_cnt (sl_free_node s1 n) = S (length (A ++ B))).
+  { rewrite C2, SMc, CNT, E, !app_length. simpl. lia. }
+  rewrite Hc. cbn [Nat.eqb]. rewrite Dn. eexists. split; [reflexivity|].
+  pose proof RP2 as (W2 & _).
+  unfold sl_R. cbn [sp_l sp_next sp_levels].
+  split; [apply sl_rep_set_cnt; rewrite map_app; exact RP2|].
+  assert (Hm : forall m dm, In (m, dm) (A ++ B) -> m <> n /\ In (m, dm) (sp_l sp)).
+  { intros m dm Hin. split.
+    - intros ->. apply NI. rewrite <- map_app. eapply sl_ids_in; eauto.
+    - rewrite E. apply in_app_or in Hin. apply in_or_app. destruct Hin; [left|right; right]; auto. }
+  split; [|split; [|split; [|split; [|split; [|split]]]]].
+  - intros m dm Hin. destruct (Hm m dm Hin) as [Hne Hin'].
+    change (sl_DATA (sl_set_cnt (sl_free_node s1 n) (S (length (A ++ B)) - 1)) m)
+      with (sl_DATA (sl_free_node s1 n) m).
+    destruct (OTH2 m Hne) as [-> _]. rewrite SMD. auto.
+  - rewrite E, map_app in SO. cbn [map snd] in SO. rewrite map_app. eapply sl_sorted_remove; eauto.
+  - cbn [sl_cnt sl_set_cnt]. lia.
+  - intros m Hlive.
+    change (sl_is_live (sl_set_cnt (sl_free_node s1 n) (S (length (A ++ B)) - 1)) m)
+      with (sl_is_live (sl_free_node s1 n) m) in Hlive.
+    apply (sl_is_live_LEV _ _ W2) in Hlive.
+    assert (m <> n) as Hne by (intros ->; lia).
+    destruct (OTH2 m Hne) as [_ EL]. rewrite EL, SML in Hlive.
+    assert (In m (map fst (sp_l sp))) as Hi by (apply LI; apply (sl_is_live_LEV s m W); exact Hlive).
+    rewrite E, map_app in Hi. cbn [map fst] in Hi. rewrite map_app.
+    apply in_app_or in Hi. apply in_or_app. destruct Hi as [Hi|[Hi|Hi]]; auto. congruence.
+  - cbn [sl_heap sl_set_cnt]. rewrite HL2, SMh. exact NX.
+  - cbn [sl_levels sl_set_cnt]. rewrite LS2, SMl. exact LVS.
+  - cbn [sl_levels sl_set_cnt]. rewrite LS2, SMl. exact H0.
+Qed.
+
+(* ---- key change + ares_slist_node_reinsert ---- *)
+Lemma sl_reinsert_ok s sp n d' A d B :
+  sl_R s sp -> sp_l sp = A ++ (n, d) :: B ->
+  exists s', (do s1 <- sl_set_data s n d'; sl_node_reinsert cmp s1 n) = Ok s' /\
+             sl_R s' (mkSlSpec (sp_next sp) (sl_spec_ins cmp (n, d') (A ++ B)) (sp_levels sp)).
+Proof.
+  intros R E. pose proof R as (RP & DAT & SO & CNT & LI & NX & LVS & H0).
+  pose proof RP as (W & ND & LV & _).
+  rewrite E, map_app in ND, LV. cbn [map fst] in ND, LV.
+  pose proof (sl_nodup_split_notin _ _ _ ND) as [NA NB].
+  assert (LVn : 0 < sl_LEV s n) by (apply LV, in_or_app; right; left; auto).
+  destruct (sl_set_data_ok s n d' _ RP LVn) as (s1 & E1 & RP1 & D1 & OD1 & L1 & HL1 & C1 & LS1).
+  rewrite E1. cbn [bind]. unfold sl_node_reinsert.
+  rewrite E, map_app in RP1. cbn [map fst] in RP1.
+  destruct (sl_node_pop_ok s1 n (map fst A) (map fst B) RP1) as (s2 & E2 & RP2 & SM2).
+  rewrite E2. cbn [bind].
+  pose proof SM2 as (SMD & SML & SMl & SMc & SMh).
+  assert (SO' : sl_sorted cmp (map snd (A ++ B))).
+  { rewrite E, map_app in SO. cbn [map snd] in SO. rewrite map_app. eapply sl_sorted_remove; eauto. }
+  destruct (sl_spec_ins_split cmp cmp_trans (n, d') (A ++ B) SO') as (P0 & S0 & El & Ei & HP & HS).
+  assert (NI : ~ In n (map fst (A ++ B))) by (rewrite map_app; intros H; apply in_app_or in H; tauto).
+  assert (Hm : forall m dm, In (m, dm) (A ++ B) -> m <> n /\ In (m, dm) (sp_l sp)).
+  { intros m dm Hin. split.
+    - intros ->. apply NI. eapply sl_ids_in; eauto.
+    - rewrite E. apply in_app_or in Hin. apply in_or_app. destruct Hin; [left|right; right]; auto. }
+  assert (Dm : forall m dm, In (m, dm) (A ++ B) -> sl_DATA s2 m = Some dm).
+  { intros m dm Hin. destruct (Hm m dm Hin) as [Hne Hin']. rewrite SMD, OD1; auto. }
+  rewrite <- map_app, El, map_app in RP2.
+  destruct (sl_node_push_ok cmp s2 n d' (map fst P0) (map fst S0) RP2) as (s3 & E3 & RP3 & SM3).
+  { rewrite <- map_app, <- El. exact NI. }
+  { rewrite SML, L1. exact LVn. }
+  { rewrite SMD. exact D1. }
+  { intros y Hy. apply sl_in_ids in Hy. destruct Hy as (dy & Hy). exists dy. split.
+    - apply Dm. rewrite El. apply in_or_app. auto.
+    - apply (HP (y, dy) Hy). }
+  { intros y Hy. apply sl_in_ids in Hy. destruct Hy as (dy & Hy). exists dy. split.
+    - apply Dm. rewrite El. apply in_or_app. auto.
+    - apply (HS (y, dy) Hy). }
+  { rewrite <- map_app, <- El, map_length, SMc, C1, CNT, E, !app_length. simpl. lia. }
+  exists s3. split; [exact E3|].
+  pose proof SM3 as (SMD3 & SML3 & SMl3 & SMc3 & SMh3).
+  pose proof RP3 as (W3 & _).
+  unfold sl_R. cbn [sp_l sp_next sp_levels]. rewrite Ei.
+  split; [rewrite map_app; exact RP3|].
+  split; [|split; [|split; [|split; [|split; [|split]]]]].
+  - intros m dm Hin. rewrite SMD3. apply in_app_or in Hin. destruct Hin as [Hin|[Hin|Hin]].
+    + apply Dm. rewrite El. apply in_or_app. auto.
+    + injection Hin as <- <-. rewrite SMD. exact D1.
+    + apply Dm. rewrite El. apply in_or_app. auto.
+  - rewrite <- Ei. apply sl_spec_ins_sorted; auto.
+  - rewrite SMc3, SMc, C1, CNT, <- Ei, sl_spec_ins_length, E, !app_length. simpl. lia.
+  - intros m Hlive. apply (sl_is_live_LEV _ _ W3) in Hlive. rewrite SML3, SML, L1 in Hlive.
+    assert (In m (map fst (sp_l sp))) as Hi by (apply LI; apply (sl_is_live_LEV s m W); exact Hlive).
+    rewrite E, map_app in Hi. cbn [map fst] in Hi.
+    rewrite map_app. cbn [map fst].
+    assert (In m (map fst (A ++ B)) -> In m (map fst P0 ++ n :: map fst S0)) as Hsub.
+    { rewrite El, map_app. intros H. apply in_app_or in H. apply in_or_app.
+      destruct H; [left|right; right]; auto. }
+    apply in_app_or in Hi. destruct Hi as [Hi|[Hi|Hi]].
+    + apply Hsub. rewrite map_app. apply in_or_app. auto.
+    + subst m. apply in_or_app. right. left. auto.
+    + apply Hsub. rewrite map_app. apply in_or_app. auto.
+  - rewrite SMh3, SMh, HL1. exact NX.
+  - rewrite SMl3, SMl, LS1. exact LVS.
+  - rewrite SMl3, SMl, LS1. exact H0.
+Qed.
+
+
+(* ---- every operation refines its specification ---- *)
+Theorem sl_step_refines s sp o :
+  sl_R s sp ->
+  exists s' sp' r, sl_step_model cmp s o = Ok (s', r) /\ sl_step_spec cmp sp o = (sp', r) /\ sl_R s' sp'.
+Proof.
+  intros R. pose proof R as (RP & DAT & SO & CNT & LI & NX & LVS & H0).
+  destruct o as [d heads a1 a2 a3 a4|v| | |n|n|n| | | |n|n|n d| | ].
+  - destruct (sl_insert_ok s sp d heads a1 a2 a3 a4 R) as (s' & sp' & r & E1 & E2 & R').
+    exists s', sp', (SlRNode r). cbn [sl_step_model]. rewrite E1. cbn [bind fst snd]. auto.
+  - cbn [sl_step_model sl_step_spec]. rewrite (sl_find_ok s sp v R). cbn [bind].
+    do 3 eexists. split; [reflexivity|]. split; [reflexivity|exact R].
+  - cbn [sl_step_model sl_step_spec]. rewrite (sl_first_ok s sp R). cbn [bind].
+    rewrite <- sl_hd_map_fst. do 3 eexists. split; [reflexivity|]. split; [reflexivity|exact R].
+  - cbn [sl_step_model sl_step_spec]. rewrite (sl_last_ok s sp R). cbn [bind].
+    rewrite <- map_rev, <- sl_hd_map_fst. do 3 eexists. split; [reflexivity|]. split; [reflexivity|exact R].
+  - cbn [sl_step_model sl_step_spec]. rewrite (sl_R_spec_in s sp n R).
+    destruct (sl_is_live s n) eqn:EL.
+    + destruct (sl_R_split s sp n R EL) as (A & d & B & E & NA & NB & Dn).
+      rewrite (sl_next_ok s sp A n d B R E). cbn [bind]. rewrite E, sl_after_hit by auto.
+      rewrite <- sl_hd_map_fst. do 3 eexists. split; [reflexivity|]. split; [reflexivity|exact R].
+    + do 3 eexists. split; [reflexivity|]. split; [reflexivity|exact R].
+  - cbn [sl_step_model sl_step_spec]. rewrite (sl_R_spec_in s sp n R).
+    destruct (sl_is_live s n) eqn:EL.
+    + destruct (sl_R_split s sp n R EL) as (A & d & B & E & NA & NB & Dn).
+      rewrite (sl_prev_ok s sp A n d B R E). cbn [bind]. rewrite E, sl_before_hit by auto.
+      rewrite <- map_rev, <- sl_hd_map_fst. do 3 eexists. split; [reflexivity|]. split; [reflexivity|exact R].
+    + do 3 eexists. split; [reflexivity|]. split; [reflexivity|exact R].
+  - cbn [sl_step_model sl_step_spec].
+    destruct (sl_is_live s n) eqn:EL.
+    + destruct (sl_R_split s sp n R EL) as (A & d & B & E & NA & NB & Dn).
+      unfold sl_node_val. rewrite (sl_node_data_ok _ _ _ Dn). cbn [bind].
+      rewrite E, sl_lookup_hit by auto. cbn [snd].
+      do 3 eexists. split; [reflexivity|]. split; [reflexivity|exact R].
+    + rewrite sl_lookup_miss.
+      * do 3 eexists. split; [reflexivity|]. split; [reflexivity|exact R].
+      * intros Hin. apply (sl_R_live_in s sp n R) in Hin. congruence.
+  - cbn [sl_step_model sl_step_spec]. unfold sl_first_val. rewrite (sl_first_ok s sp R). cbn [bind].
+    rewrite <- sl_hd_map_fst. rewrite (sl_opt_val_ok s sp (hd_error (sp_l sp)) R).
+    + cbn [bind]. do 3 eexists. split; [reflexivity|]. split; [reflexivity|exact R].
+    + intros e He. destruct (sp_l sp); [discriminate|]. injection He as ->. left; auto.
+  - cbn [sl_step_model sl_step_spec]. unfold sl_last_val. rewrite (sl_last_ok s sp R). cbn [bind].
+    rewrite <- map_rev, <- sl_hd_map_fst. rewrite (sl_opt_val_ok s sp (hd_error (rev (sp_l sp))) R).
+    + cbn [bind]. do 3 eexists. split; [reflexivity|]. split; [reflexivity|exact R].
+    + intros e He. apply in_rev. destruct (rev (sp_l sp)); [discriminate|]. injection He as ->. left; auto.
+  - cbn [sl_step_model sl_step_spec]. unfold sl_len. rewrite CNT.
+    do 3 eexists. split; [reflexivity|]. split; [reflexivity|exact R].
+  - cbn [sl_step_model sl_step_spec].
+    destruct (sl_is_live s n) eqn:EL.
+    + destruct (sl_R_split s sp n R EL) as (A & d & B & E & NA & NB & Dn).
+      destruct (sl_claim_ok s sp n A d B R E) as (s' & E1 & R').
+      rewrite E1. cbn [bind fst snd]. rewrite E, sl_lookup_hit, sl_remove_hit by auto. cbn [snd].
+      do 3 eexists. split; [reflexivity|]. split; [reflexivity|exact R'].
+    + rewrite sl_lookup_miss.
+      * do 3 eexists. split; [reflexivity|]. split; [reflexivity|exact R].
+      * intros Hin. apply (sl_R_live_in s sp n R) in Hin. congruence.
+  - cbn [sl_step_model sl_step_spec].
+    destruct (sl_is_live s n) eqn:EL.
+    + destruct (sl_R_split s sp n R EL) as (A & d & B & E & NA & NB & Dn).
+      destruct (sl_claim_ok s sp n A d B R E) as (s' & E1 & R').
+      rewrite E1. cbn [bind fst snd]. rewrite E, sl_lookup_hit, sl_remove_hit by auto. cbn [snd].
+      do 3 eexists. split; [reflexivity|]. split; [reflexivity|exact R'].
+    + rewrite sl_lookup_miss.
+      * do 3 eexists. split; [reflexivity|]. split; [reflexivity|exact R].
+      * intros Hin. apply (sl_R_live_in s sp n R) in Hin. congruence.
+  - cbn [sl_step_model sl_step_spec]. rewrite (sl_R_spec_in s sp n R).
+    destruct (sl_is_live s n) eqn:EL.
+    + destruct (sl_R_split s sp n R EL) as (A & d0 & B & E & NA & NB & Dn).
+      destruct (sl_reinsert_ok s sp n d A d0 B R E) as (s' & E1 & R').
+      destruct (sl_set_data s n d) as [s1| |] eqn:ES; cbn [bind] in E1 |- *; try discriminate.
+      rewrite E1. cbn [bind]. rewrite E, sl_remove_hit by auto.
+      do 3 eexists. split; [reflexivity|]. split; [reflexivity|exact R'].
+    + do 3 eexists. split; [reflexivity|]. split; [reflexivity|exact R].
+  - cbn [sl_step_model sl_step_spec]. rewrite (sl_first_ok s sp R). cbn [bind].
+    destruct (sp_l sp) as [|[n d] l] eqn:E; cbn [map hd_error fst].
+    + do 3 eexists. split; [reflexivity|]. split; [reflexivity|exact R].
+    + destruct (sl_claim_ok s sp n [] d l R E) as (s' & E1 & R').
+      rewrite E1. cbn [bind fst snd].
+      do 3 eexists. split; [reflexivity|]. split; [reflexivity|exact R'].
+  - cbn [sl_step_model sl_step_spec].
+    rewrite (sl_walk_fwd_all s sp R), (sl_walk_bwd_all s sp R). cbn [bind]. unfold sl_len. rewrite CNT.
+    do 3 eexists. split; [reflexivity|]. split; [reflexivity|exact R].
+Qed.
+
+Theorem sl_run_refines : forall ops s sp,
+  sl_R s sp ->
+  exists s', sl_run_model cmp s ops = Ok (fst (sl_run_spec cmp sp ops), s') /\
+             sl_R s' (snd (sl_run_spec cmp sp ops)).
+Proof.
+  induction ops as [|o ops IH]; intros s sp R.
+  - exists s. split; auto.
+  - cbn [sl_run_model sl_run_spec].
+    destruct (sl_step_refines s sp o R) as (s1 & sp1 & r & E1 & E2 & R1).
+    rewrite E1, E2. cbn [bind fst snd].
+    destruct (IH s1 sp1 R1) as (s' & E & R').
+    rewrite E. cbn [bind fst snd]. exists s'. auto.
+Qed.
+
+(* ---- create and destroy ---- *)
+Lemma sl_start_levels_pos : 0 < sl_start_levels.
+Proof. unfold sl_start_levels, ARES__SLIST_START_LEVELS. simpl. lia. Qed.
+
+Lemma sl_create_R : exists s0, sl_create true true = Some s0 /\ sl_R s0 sl_spec_create.
+Proof.
+  eexists. split; [reflexivity|].
+  set (s0 := mkSl _ _ _ _ _).
+  assert (NA : forall n, sl_node_at s0 n = None).
+  { intros n. unfold sl_node_at, s0. cbn [sl_heap]. destruct n; reflexivity. }
+  unfold sl_R, sl_spec_create. cbn [sp_l sp_next sp_levels map].
+  split; [|split; [|split; [|split; [|split; [|split; [|split]]]]]]; auto.
+  - split; [|split; [|split; [|split]]].
+    + split.
+      * intros n nd. rewrite NA. discriminate.
+      * unfold s0. cbn [sl_head sl_levels]. apply repeat_length.
+    + constructor.
+    + intros n [].
+    + intros k Hk. cbn [sl_chain filter]. split; simpl; auto.
+      unfold sl_HD, s0. cbn [sl_head].
+      destruct (nth_error (repeat None sl_start_levels) k) eqn:E; auto.
+      apply nth_error_In, repeat_spec in E. subst. reflexivity.
+    + reflexivity.
+  - intros n d [].
+  - simpl. auto.
+  - intros n. unfold sl_is_live. rewrite NA. discriminate.
+  - apply sl_start_levels_pos.
+Qed.
+
+Lemma sl_destroy_loop_ok : forall l s sp acc fuel,
+  sl_R s sp -> sp_l sp = l -> length l < fuel ->
+  sl_destroy_loop fuel s acc = Ok (rev acc ++ map snd l).
+Proof.
+  induction l as [|[n d] l IH]; intros s sp acc fuel R E Hf;
+    (destruct fuel as [|f]; [simpl in Hf; lia|]); cbn [sl_destroy_loop];
+    rewrite (sl_first_ok s sp R), E; cbn [bind map hd_error fst].
+  - rewrite app_nil_r. reflexivity.
+  - destruct (sl_claim_ok s sp n [] d l R E) as (s' & E1 & R').
+    rewrite E1. cbn [bind fst snd app].
+    rewrite (IH s' _ (d :: acc) f R' eq_refl).
+    + simpl. rewrite <- app_assoc. reflexivity.
+    + simpl in Hf. lia.
+Qed.
+
+Lemma sl_destroy_ok s sp : sl_R s sp -> sl_destroy s = Ok (map snd (sp_l sp)).
+Proof.
+  intros R. unfold sl_destroy.
+  rewrite (sl_destroy_loop_ok (sp_l sp) s sp [] (S (sl_cnt s)) R eq_refl); auto.
+  destruct R as (_ & _ & _ & -> & _). lia.
+Qed.
+
+(* ---- the lifted statement: a whole life of the container ---- *)
+Theorem sl_life_refines ops : sl_life_model cmp ops = Ok (sl_life_spec cmp ops).
+Proof.
+  unfold sl_life_model, sl_life_spec.
+  destruct sl_create_R as (s0 & -> & R0).
+  destruct (sl_run_refines ops s0 sl_spec_create R0) as (s' & E & R').
+  rewrite E. cbn [bind fst snd]. rewrite (sl_destroy_ok s' _ R'). reflexivity.
+Qed.
+
+(* the state reached by any operation sequence is related to the specification's *)
+Theorem sl_reach ops :
+  exists s0 s, sl_create true true = Some s0 /\
+    sl_run_model cmp s0 ops = Ok (fst (sl_run_spec cmp sl_spec_create ops), s) /\
+    sl_R s (snd (sl_run_spec cmp sl_spec_create ops)).
+Proof.
+  destruct sl_create_R as (s0 & E0 & R0).
+  destruct (sl_run_refines ops s0 sl_spec_create R0) as (s' & E & R').
+  exists s0, s'. auto.
+Qed.
+
 End SLR.
